@@ -150,6 +150,19 @@ func runKeepAliveExecution(t *testing.T, seed int64, log *traceLog) {
 				written[k] = true
 			}
 		}
+		// a peer the application only listens to: one explicit Client.CreatePermission at the start, never a WriteTo.
+		// What it sends must keep arriving for as long as the relayed socket is open.
+		listenOnly := ""
+		if !many && seed%2 == 0 {
+			listenOnly = "B/2"
+			pa, _ := w.peers[listenOnly].LocalAddr().(*net.UDPAddr)
+			if err := cl.CreatePermission(pa); err != nil {
+				listenOnly = ""
+			} else {
+				peerKeys = peerKeys[:3] // (the application never writes to it)
+				log.add(map[string]any{"e": "Note", "what": "explicit CreatePermission for a listen-only peer", "t": sec()})
+			}
+		}
 		pn := 0
 		probeOut := func(k string) {
 			pn++
@@ -226,6 +239,12 @@ func runKeepAliveExecution(t *testing.T, seed int64, log *traceLog) {
 				}
 				relayAddr, _ = relay.LocalAddr().(*net.UDPAddr)
 				written = map[string]bool{}
+				if listenOnly != "" { // the new allocation knows nothing of the old one's permissions
+					pa, _ := w.peers[listenOnly].LocalAddr().(*net.UDPAddr)
+					if err := cl.CreatePermission(pa); err != nil {
+						listenOnly = ""
+					}
+				}
 				closeAt = horizon/3 + rng.Intn(horizon*2/3)
 				flushEvents()
 				log.add(map[string]any{"e": "Reopen", "t": sec()})
@@ -294,6 +313,9 @@ func runKeepAliveExecution(t *testing.T, seed int64, log *traceLog) {
 				time.Sleep(time.Duration(step) * time.Second)
 			}
 			synctest.Wait()
+			if listenOnly != "" && deafUntil <= 0 && rng.Intn(4) == 0 {
+				probeIn(listenOnly)
+			}
 			// at the end of an idle phase, everything the client ever used must still work
 			if !chatty && sec() >= phaseEnd {
 				for _, k := range peerKeys {
